@@ -164,8 +164,9 @@ class MyPyAstVisitor:
                 generic_types = [item.node for item in generic_expr.items if hasattr(item, "node")]
             elif isinstance(generic_expr, mp_nodes.NameExpr):
                 generic_types = [generic_expr.node]
-            else:  # pragma: no cover
-                raise TypeError("Unexpected type while parsing generic type.")
+            else:
+                # The subscript is a type like "list[int]" or a forward reference, but no type variable
+                generic_types = []
 
             # Only type variables are type parameters of the class, "Sequence[int]" has none
             generic_types = [generic_type for generic_type in generic_types if isinstance(generic_type, mp_nodes.TypeVarExpr)]
@@ -627,7 +628,13 @@ class MyPyAstVisitor:
                                     types.setdefault(str(type_.to_dict()), type_)
                     elif hasattr(return_stmt.expr, "node") and getattr(return_stmt.expr.node, "is_self", False):
                         # The result type is an instance of the parent class
-                        expr_type = return_stmt.expr.node.type.type
+                        # (for "def clone(self: T)" the type of self is a type variable, its bound is the class)
+                        self_instance = return_stmt.expr.node.type
+                        expr_type = getattr(self_instance, "type", None) or getattr(
+                            getattr(self_instance, "upper_bound", None), "type", None,
+                        )
+                        if expr_type is None:
+                            continue
                         self_type = sds_types.NamedType(name=expr_type.name, qname=expr_type.fullname)
                         types.setdefault(str(self_type.to_dict()), self_type)
                     else:
@@ -898,8 +905,10 @@ class MyPyAstVisitor:
             default_is_none = False
 
             # Get type information for parameter
-            if mypy_type is None:  # pragma: no cover
-                raise ValueError("Argument has no type.")
+            if mypy_type is None:
+                # The type checker does not analyse unreachable code (e.g. after a "raise" on module level): the
+                # parameter has no type information
+                pass
             elif isinstance(mypy_type, mp_types.AnyType) and not has_correct_type_of_any(mypy_type.type_of_any):
                 # We try to infer the type through the default value later, if possible
                 pass
